@@ -24,6 +24,7 @@ GROUPS = {
     'SrcSlice': dict(gen=['SrcSlice'], modules=['MV.Props.TieSlice'], kernels=['gmb'], driver='Src2'),
     'SrcDur': dict(gen=['SrcDur'], modules=['MV.Props.TieDur', 'MV.Props.TieDurC10'], kernels=['mdur', 'cdur', 'sdur'],
                    driver='Src2'),
+    'SrcMetric': dict(gen=['SrcMetric'], modules=['MV.Props.TieMetric'], kernels=['beats', 'compl', 'cshift'], driver='Src2'),
 }
 HELPERS = ['MV.Lemmas.PyTie', 'MV.Lemmas.TieDurLemmas']
 
@@ -239,6 +240,34 @@ def cases(rng, kernel, n):
                                 [f'parts={len(c.score)}', 'unequal' if len({m.duration for m in c.score.values()}) > 1 else 'equal']))
                 else:
                     out.append(([enc_score(sc)], py_res(lambda: frac_str(sc.duration)), {'score': str(sc)}, [f'chords={len(sc.chords)}']))
+    elif kernel in ('beats', 'compl', 'cshift'):
+        from musiclang import Metric
+        from fractions import Fraction as F
+        from core import frac_str
+        show_beats = lambda r: '((' + ' '.join(f'({int(bool(b))} {frac_str(d)})' for b, d in r[0]) + f') {int(bool(r[1]))})'
+        for i in range(n):
+            if kernel == 'beats':
+                t = rng.choice([F(1), F(1, 2), F(1, 3), F(1, 4), F(3, 8), F(2)])
+                arr = [rng.choice([0, 0, 1, 1, 1, 2, -1]) for _ in range(rng.randint(0, 10))]
+                m = Metric([1, 0, 0, 0], (4, 4), tatum=F(1))
+                m.tatum = t
+                out.append(([t, arr], py_res(lambda: show_beats(m.get_beat_durations(list(arr)))), {'tatum': str(t), 'array': arr},
+                            [f'len={min(len(arr), 5)}', 'binary' if all(x in (0, 1) for x in arr) else 'nonbinary']))
+            else:
+                sig = rng.choice([(4, 4), (3, 4), (2, 4), (6, 8), (2, 2)])
+                t = rng.choice([F(1), F(1, 2), F(1, 4)])
+                nb = rng.randint(1, 2)
+                steps = int(nb * sig[0] * F(4, sig[1]) / t)
+                arr = [rng.choice([0, 1]) for _ in range(steps)]
+                m = Metric(list(arr), sig, tatum=t, nb_bars=nb)
+                if kernel == 'compl':
+                    out.append(([arr, list(sig), t, nb], py_res(lambda: show_ints(m.complementary().array)),
+                                {'array': arr, 'sig': sig, 'tatum': str(t), 'nb': nb}, [f'steps={steps}']))
+                else:
+                    k = rng.choice([0, 1, -1, steps, -steps, rng.randint(-3 * steps, 3 * steps)])
+                    out.append(([arr, list(sig), t, nb, k], py_res(lambda: show_ints(m.circular_shift(k).array)),
+                                {'array': arr, 'sig': sig, 'tatum': str(t), 'nb': nb, 'n': k},
+                                ['n<0' if k < 0 else ('n=0' if k == 0 else 'n>0'), '|n|>=len' if abs(k) >= steps else '|n|<len']))
     else:
         raise KeyError(kernel)
     return out
